@@ -25,16 +25,16 @@ import (
 	"golang.org/x/tools/go/ssa"
 )
 
-type dim struct{ l, t, k int } // doubled exponents
+type dim struct{ l, t, k, p int } // doubled exponents (p: pixels of a raster image)
 
-func (d dim) add(o dim) dim  { return dim{d.l + o.l, d.t + o.t, d.k + o.k} }
-func (d dim) sub(o dim) dim  { return dim{d.l - o.l, d.t - o.t, d.k - o.k} }
-func (d dim) scale(n int) dim { return dim{d.l * n, d.t * n, d.k * n} }
+func (d dim) add(o dim) dim  { return dim{d.l + o.l, d.t + o.t, d.k + o.k, d.p + o.p} }
+func (d dim) sub(o dim) dim  { return dim{d.l - o.l, d.t - o.t, d.k - o.k, d.p - o.p} }
+func (d dim) scale(n int) dim { return dim{d.l * n, d.t * n, d.k * n, d.p * n} }
 func (d dim) half() (dim, bool) {
-	if d.l%2 != 0 || d.t%2 != 0 || d.k%2 != 0 {
+	if d.l%2 != 0 || d.t%2 != 0 || d.k%2 != 0 || d.p%2 != 0 {
 		return dim{}, false
 	}
-	return dim{d.l / 2, d.t / 2, d.k / 2}, true
+	return dim{d.l / 2, d.t / 2, d.k / 2, d.p / 2}, true
 }
 func (d dim) String() string {
 	if d == (dim{}) {
@@ -44,7 +44,7 @@ func (d dim) String() string {
 	for _, p := range []struct {
 		n string
 		e int
-	}{{"L", d.l}, {"T", d.t}, {"K", d.k}} {
+	}{{"L", d.l}, {"T", d.t}, {"K", d.k}, {"px", d.p}} {
 		if p.e == 0 {
 			continue
 		}
@@ -60,12 +60,14 @@ func (d dim) String() string {
 }
 
 var (
-	dimL   = dim{2, 0, 0}
-	dimL2  = dim{4, 0, 0}
-	dimT   = dim{0, 2, 0}
-	dimLpT = dim{2, -2, 0}
-	dimK   = dim{0, 0, 2}
-	dimKL  = dim{2, 0, 2}
+	dimL   = dim{l: 2}
+	dimL2  = dim{l: 4}
+	dimT   = dim{t: 2}
+	dimLpT = dim{l: 2, t: -2}
+	dimK   = dim{k: 2}
+	dimKL  = dim{l: 2, k: 2}
+	dimP   = dim{p: 2}
+	dimPpL = dim{p: 2, l: -2}
 	dim1   = dim{}
 )
 
@@ -247,6 +249,18 @@ func fieldSeed(owner types.Type, f *types.Var) (uval, bool) {
 			return known(dimK, kVector), true
 		case "Max":
 			return known(dimKL, kScalar), true
+		}
+	case "Rasterizer":
+		// documented: Scale = pixels per unit distance, LineWidth in pixels
+		switch name {
+		case "Scale":
+			if isFloat(f.Type()) {
+				return known(dimPpL, kScalar), true
+			}
+		case "LineWidth":
+			if isFloat(f.Type()) {
+				return known(dimP, kScalar), true
+			}
 		}
 	case "Coord", "Coord3D", "Color", "Matrix2", "Matrix3", "Matrix4":
 		return uval{}, false
@@ -442,6 +456,21 @@ func (e *unitsEngine) load(x *ssa.UnOp) uval {
 		return uval{}
 	case *ssa.Alloc:
 		return e.addrValue(a)
+	case *ssa.FreeVar:
+		// a captured variable: what the enclosing function stores into its cell
+		if b := freeVarBinding(a); b != nil {
+			if _, isAlloc := b.(*ssa.Alloc); isAlloc {
+				return e.addrValue(b)
+			}
+			if fv, isFV := b.(*ssa.FreeVar); isFV {
+				if b2 := freeVarBinding(fv); b2 != nil {
+					if _, isAlloc := b2.(*ssa.Alloc); isAlloc {
+						return e.addrValue(b2)
+					}
+				}
+			}
+		}
+		return uval{}
 	case *ssa.Parameter:
 		// *p for a pointer parameter: what this function stores through it
 		res := uval{st: uPoly}
@@ -471,6 +500,35 @@ func (e *unitsEngine) load(x *ssa.UnOp) uval {
 		}
 	}
 	return uval{}
+}
+
+// freeVarBinding: the value bound to a free variable where its closure is made.
+func freeVarBinding(fv *ssa.FreeVar) ssa.Value {
+	fn := fv.Parent()
+	if fn == nil || fn.Parent() == nil {
+		return nil
+	}
+	idx := -1
+	for i, v := range fn.FreeVars {
+		if v == fv {
+			idx = i
+		}
+	}
+	if idx < 0 {
+		return nil
+	}
+	var res ssa.Value
+	for _, b := range fn.Parent().Blocks {
+		for _, ins := range b.Instrs {
+			if mc, ok := ins.(*ssa.MakeClosure); ok && mc.Fn == ssa.Value(fn) && idx < len(mc.Bindings) {
+				if res != nil && res != mc.Bindings[idx] {
+					return nil
+				}
+				res = mc.Bindings[idx]
+			}
+		}
+	}
+	return res
 }
 
 // addrValue: the value held in a local variable (join of the stores).
